@@ -115,6 +115,74 @@ def _with_closures(f: FuncInfo) -> list[FuncInfo]:
     return out
 
 
+def check_step_results_in_ready_order(ctx, rule: str) -> None:
+    """The async step builds its tasks in ready-list order, gathers them with return_exceptions, applies the results by
+    iterating the gather result, records the first exception in that order (its only source) and raises after the
+    loop: what the step reports never depends on the order in which its nodes complete."""
+    db, rep = ctx.db, ctx.rep
+    sss = superstep_funcs(db)
+    for ss in sss:
+        if not ss.is_async:
+            continue
+        cfg = ctx.cfg(ss, runner_no_raise(db))
+        rd = reaching_defs(cfg)
+        gathers = [(n, c) for n in cfg.nodes for c in cfg.calls_at(n) if dotted(c.func) == "asyncio.gather"]
+        if len(gathers) != 1:
+            rep.bad(rule, f"{ss.qname}:gather", ss.loc(), f"expected exactly one gather in the superstep, found {len(gathers)}")
+            continue
+        gn, gc = gathers[0]
+        kwv = {k.arg: k.value for k in gc.keywords}
+        ok = isinstance(kwv.get("return_exceptions"), ast.Constant) and kwv["return_exceptions"].value is True
+        rep.add(rule, f"{ss.qname}:gather-collects", ok, f"{ss.module.rel}:{gn.lineno}", "gather(return_exceptions=True)" if ok else "gather does not collect exceptions: the first failure to *complete* wins and successful siblings are lost")
+        # tasks built by iterating the ready list in order
+        star = [a.value for a in gc.args if isinstance(a, ast.Starred)]
+        ok = False
+        detail = "gather arguments are not a starred task list"
+        if len(star) == 1 and isinstance(star[0], ast.Name):
+            vals = [v for d, v in defs_reaching(cfg, rd, gn, star[0].id)]
+            if len(vals) == 1 and isinstance(vals[0], ast.ListComp) and len(vals[0].generators) == 1:
+                it = vals[0].generators[0].iter
+                ok = isinstance(it, ast.Name) and it.id == "ready_nodes" and not vals[0].generators[0].ifs
+                detail = "tasks = [.. for node in ready_nodes]" if ok else f"tasks are not built by iterating the ready list in order ({src(vals[0])[:60]})"
+        rep.add(rule, f"{ss.qname}:tasks-in-ready-order", ok, f"{ss.module.rel}:{gn.lineno}", detail)
+        # results iterated directly
+        res_names = [t.id for t in gn.ast.targets if isinstance(t, ast.Name)] if isinstance(gn.ast, ast.Assign) else []
+        loops = [n for n in cfg.nodes if n.kind == "for" and isinstance(n.ast.iter, ast.Name) and n.ast.iter.id in res_names]
+        ok = len(loops) == 1 and len(db.local_defs(ss).get(res_names[0], [])) == 1 if res_names else False
+        rep.add(rule, f"{ss.qname}:apply-in-gather-order", ok, f"{ss.module.rel}:{loops[0].lineno if loops else gn.lineno}", "results are applied by iterating the gather result in task order" if ok else "results are not applied by iterating the gather result directly (order may follow completion)")
+        for bad in ("asyncio.as_completed", "asyncio.wait"):
+            for n in cfg.nodes:
+                for c in cfg.calls_at(n):
+                    if dotted(c.func) == bad:
+                        rep.bad(rule, f"{ss.qname}:{bad}", f"{ss.module.rel}:{n.lineno}", "completion-ordered collection of step results")
+        if loops:
+            loop = loops[0]
+            # first error guarded by 'none recorded yet'
+            assigns = [n for n in cfg.nodes if n.kind == "stmt" and isinstance(n.ast, ast.Assign) and contains(loop.ast, n.ast) and any(isinstance(t, ast.Name) and "error" in t.id for t in n.ast.targets)]
+            ok = bool(assigns)
+            for a in assigns:
+                g = enclosing(a.ast, (ast.If,))
+                nm = a.ast.targets[0].id
+                if g is None or src(g.test) != f"{nm} is None":
+                    ok = False
+            # ... and that is its only source: outside the result loop the recorded error is only ever initialised to None
+            # (an error taken from a list filled as nodes *complete* — or as observers let them — follows timing)
+            err_names = {a.ast.targets[0].id for a in assigns}
+            for d_ in [x for x in walk_local(ss.node) if isinstance(x, (ast.Assign, ast.AnnAssign)) and not contains(loop.ast, x)]:
+                t_ = d_.targets[0] if isinstance(d_, ast.Assign) else d_.target
+                if isinstance(t_, ast.Name) and t_.id in err_names and not (d_.value is None or isinstance(d_.value, ast.Constant) and d_.value.value is None):
+                    ok = False
+            rep.add(rule, f"{ss.qname}:first-error-wins", ok, f"{ss.module.rel}:{assigns[0].lineno if assigns else loop.lineno}", "recorded error = first exception in ready-list order" if ok else "the recorded error is not guarded by 'none recorded yet' (last or arbitrary failure wins)")
+            # all raises after the loop
+            dom = dominators(cfg.entry)
+            raises = [n for n in cfg.nodes if n.kind == "stmt" and isinstance(n.ast, ast.Raise) and n in dom and not contains(loop.ast, n.ast) and n.lineno > loop.lineno]
+            inside = [n for n in cfg.nodes if n.kind == "stmt" and isinstance(n.ast, (ast.Raise, ast.Break, ast.Return)) and contains(loop.ast, n.ast)]
+            ok = bool(raises) and all(loop in dom[r] for r in raises) and not inside
+            rep.add(rule, f"{ss.qname}:apply-before-raise", ok, f"{ss.module.rel}:{loop.lineno}", "every successful result is applied before the error is raised" if ok else "the error can be raised before all successful results were applied")
+
+    # a failing map reports the first failing item in input order under both runners and every schedule
+
+
 def run(ctx) -> None:
     db, rep = ctx.db, ctx.rep
     E = Effects(db)
@@ -236,59 +304,7 @@ def run(ctx) -> None:
                         rep.add("C02.R3", f"{f.qname}:routing-key", ok, f"{f.module.rel}:{n.lineno}", "decision stored under the executing node's own name" if ok else f"routing decision stored under '{src(k)}', not the executing node's own name")
 
     # ---- R4 -------------------------------------------------------------------
-    for ss in sss:
-        if not ss.is_async:
-            continue
-        cfg = ctx.cfg(ss, runner_no_raise(db))
-        rd = reaching_defs(cfg)
-        gathers = [(n, c) for n in cfg.nodes for c in cfg.calls_at(n) if dotted(c.func) == "asyncio.gather"]
-        if len(gathers) != 1:
-            rep.bad("C02.R4", f"{ss.qname}:gather", ss.loc(), f"expected exactly one gather in the superstep, found {len(gathers)}")
-            continue
-        gn, gc = gathers[0]
-        kwv = {k.arg: k.value for k in gc.keywords}
-        ok = isinstance(kwv.get("return_exceptions"), ast.Constant) and kwv["return_exceptions"].value is True
-        rep.add("C02.R4", f"{ss.qname}:gather-collects", ok, f"{ss.module.rel}:{gn.lineno}", "gather(return_exceptions=True)" if ok else "gather does not collect exceptions: the first failure to *complete* wins and successful siblings are lost")
-        # tasks built by iterating the ready list in order
-        star = [a.value for a in gc.args if isinstance(a, ast.Starred)]
-        ok = False
-        detail = "gather arguments are not a starred task list"
-        if len(star) == 1 and isinstance(star[0], ast.Name):
-            vals = [v for d, v in defs_reaching(cfg, rd, gn, star[0].id)]
-            if len(vals) == 1 and isinstance(vals[0], ast.ListComp) and len(vals[0].generators) == 1:
-                it = vals[0].generators[0].iter
-                ok = isinstance(it, ast.Name) and it.id == "ready_nodes" and not vals[0].generators[0].ifs
-                detail = "tasks = [.. for node in ready_nodes]" if ok else f"tasks are not built by iterating the ready list in order ({src(vals[0])[:60]})"
-        rep.add("C02.R4", f"{ss.qname}:tasks-in-ready-order", ok, f"{ss.module.rel}:{gn.lineno}", detail)
-        # results iterated directly
-        res_names = [t.id for t in gn.ast.targets if isinstance(t, ast.Name)] if isinstance(gn.ast, ast.Assign) else []
-        loops = [n for n in cfg.nodes if n.kind == "for" and isinstance(n.ast.iter, ast.Name) and n.ast.iter.id in res_names]
-        ok = len(loops) == 1 and len(db.local_defs(ss).get(res_names[0], [])) == 1 if res_names else False
-        rep.add("C02.R4", f"{ss.qname}:apply-in-gather-order", ok, f"{ss.module.rel}:{loops[0].lineno if loops else gn.lineno}", "results are applied by iterating the gather result in task order" if ok else "results are not applied by iterating the gather result directly (order may follow completion)")
-        for bad in ("asyncio.as_completed", "asyncio.wait"):
-            for n in cfg.nodes:
-                for c in cfg.calls_at(n):
-                    if dotted(c.func) == bad:
-                        rep.bad("C02.R4", f"{ss.qname}:{bad}", f"{ss.module.rel}:{n.lineno}", "completion-ordered collection of step results")
-        if loops:
-            loop = loops[0]
-            # first error guarded by 'none recorded yet'
-            assigns = [n for n in cfg.nodes if n.kind == "stmt" and isinstance(n.ast, ast.Assign) and contains(loop.ast, n.ast) and any(isinstance(t, ast.Name) and "error" in t.id for t in n.ast.targets)]
-            ok = bool(assigns)
-            for a in assigns:
-                g = enclosing(a.ast, (ast.If,))
-                nm = a.ast.targets[0].id
-                if g is None or src(g.test) != f"{nm} is None":
-                    ok = False
-            rep.add("C02.R4", f"{ss.qname}:first-error-wins", ok, f"{ss.module.rel}:{assigns[0].lineno if assigns else loop.lineno}", "recorded error = first exception in ready-list order" if ok else "the recorded error is not guarded by 'none recorded yet' (last or arbitrary failure wins)")
-            # all raises after the loop
-            dom = dominators(cfg.entry)
-            raises = [n for n in cfg.nodes if n.kind == "stmt" and isinstance(n.ast, ast.Raise) and n in dom and not contains(loop.ast, n.ast) and n.lineno > loop.lineno]
-            inside = [n for n in cfg.nodes if n.kind == "stmt" and isinstance(n.ast, (ast.Raise, ast.Break, ast.Return)) and contains(loop.ast, n.ast)]
-            ok = bool(raises) and all(loop in dom[r] for r in raises) and not inside
-            rep.add("C02.R4", f"{ss.qname}:apply-before-raise", ok, f"{ss.module.rel}:{loop.lineno}", "every successful result is applied before the error is raised" if ok else "the error can be raised before all successful results were applied")
-
-    # a failing map reports the first failing item in input order under both runners and every schedule
+    check_step_results_in_ready_order(ctx, "C02.R4")
     from .c10 import check_first_failure
 
     check_first_failure(ctx, "C02.R4")
